@@ -285,7 +285,17 @@ static void convenience_pass(){ std::vector<User> us; U<User>::get(us); { User b
 	for(size_t i=0;i<us.size();i++){ vf::eval(); ConvJar jar; { cppcms::session_interface s1(pool,jar); s1.load(); s1.store_data("obj",us[i]); s1.save(); } { cppcms::session_interface s2(pool,jar); s2.load(); User back; try{ s2.fetch_data("obj",back); if(canon(back)!=canon(us[i])) vf::violation("convenience:session-roundtrip","object stored with session store_data comes back different","\"case\":\"session store_data/fetch_data\""); else vf::guard("session_store_data_roundtrips"); }catch(std::exception const &e){ vf::violation("convenience:session-throws",std::string("session fetch_data throws on stored object: ")+e.what(),"\"case\":\"session\""); }
 			// damaged stored value: every truncation -> must throw or equal the strict reference
 			std::string good=s2.get("obj"); for(size_t n=0;n<good.size();n+= (good.size()>300?13:1)){ vf::eval(); s2.set("obj",good.substr(0,n)); User b2; bool ok=true; try{ s2.fetch_data("obj",b2); }catch(std::exception const &){ ok=false; } Ref r(s2.get("obj")); std::string cut=good.substr(0,n); Ref rr(cut); User ru; bool rok=RL<User>::load(rr,ru); if(ok&&(!rok||canon(ru)!=canon(b2))) vf::violation("convenience:session-damaged","fetch_data accepts a truncated stored object","\"case\":\"session truncated\""); vf::guard("session_damaged_values"); } }
-		ci.store_data("obj"+std::to_string(i),us[i]); User cb; if(!ci.fetch_data("obj"+std::to_string(i),cb)||canon(cb)!=canon(us[i])) vf::violation("convenience:cache-roundtrip","object stored with cache store_data comes back different or is missing","\"case\":\"cache store_data/fetch_data\""); else vf::guard("cache_store_data_roundtrips"); } }
+		ci.store_data("obj"+std::to_string(i),us[i]); User cb; if(!ci.fetch_data("obj"+std::to_string(i),cb)||canon(cb)!=canon(us[i])) vf::violation("convenience:cache-roundtrip","object stored with cache store_data comes back different or is missing","\"case\":\"cache store_data/fetch_data\""); else vf::guard("cache_store_data_roundtrips"); }
+	// size limits of the session format (key length field 10 bits, value length field 21 bits): objects whose serialized size is 2^21-2 .. 2^21+1 and keys of 1022 .. 1025
+	// bytes. store_data + save may refuse (throw); if they do not, the NEXT request must load the session and get the object back - never a session that no longer loads.
+	{ User probe; probe.id=1; probe.name="x"; std::string base; { archive a; archive_traits<User>::save(probe,a); base=a.str(); } size_t overhead=base.size()-1; long sizes[]={(1L<<21)-2,(1L<<21)-1,(1L<<21),(1L<<21)+1}; int klens[]={1022,1023,1024,1025};
+	  for(int which=0;which<8;which++){ vf::eval(); User u; u.id=7; size_t target= which<4? (size_t)sizes[which] : 50; u.name=std::string(target-overhead,'z'); std::string key= which<4? std::string("obj") : std::string(klens[which-4],'k'); { archive a; archive_traits<User>::save(u,a); if(a.str().size()!=target){ fprintf(stderr,"harness error: size computation (%zu vs %zu)\n",a.str().size(),target); vf::C().harness_error=true; break; } }
+		std::string cs= which<4? "session store_data of an object serialized to "+std::to_string(target)+" bytes" : "session store_data under a key of "+std::to_string(key.size())+" bytes"; vf::announce("convenience "+cs); ConvJar jar; bool saved=false; std::string why;
+		try{ cppcms::session_interface s1(pool,jar); s1.load(); s1.set("other","keep"); s1.store_data(key,u); s1.save(); saved=true; }catch(std::exception const &e){ why=e.what(); }
+		if(saved){ try{ cppcms::session_interface s2(pool,jar); s2.load(); User back; s2.fetch_data(key,back); if(canon(back)!=canon(u)||s2.get("other","")!="keep") vf::violation("convenience:session-size-edge","an object accepted by store_data + save comes back different in the next request ["+cs+"]","\"case\":"+vf::jstr(cs)); else vf::guard("session_size_edges_roundtrip"); }
+			catch(std::exception const &e){ vf::violation("convenience:session-size-edge",std::string("store_data + save accepted the object, but the next request cannot load the session: ")+e.what()+" ["+cs+"]","\"case\":"+vf::jstr(cs)); } }
+		else vf::guard("session_size_edges_refused"); vf::outcome("szedge|"+std::to_string(which)+(saved?"|saved":"|refused")); } }
+}
 
 template<class T> bool replay_t(const char *want,const std::string &tname,const std::string &bytes){ if(tname!=want) return false; std::string c=load_case<T>(want,bytes); printf("replay: type=%s outcome=%s\n",want,c.substr(0,200).c_str()); return true; }
 static void replay(const std::string &file){ std::ifstream f(file); std::stringstream ss; ss<<f.rdbuf(); std::string l=ss.str(); std::string t=vf::jfield(l,"type"),b=vf::unhex(vf::jfield(l,"archive_hex")); g_phase="replay";
@@ -303,12 +313,12 @@ int main(int argc,char **argv){
 	vf::init(argc,argv,"C19","exploration");
 	if(!vf::C().replay_file.empty()){ replay(vf::C().replay_file); return vf::finish(); }
 	int depth=vf::thorough()?6:4; int odepth=vf::thorough()?6:5;
-	vf::C().rule="(a) every value of a generated universe for 27 types (element counts 0,1,2,3; atoms incl. NUL strings, 300-byte string, NaN-free doubles, null/non-null pointers, user class, fixed arrays, json) saved and loaded; (b) for every such archive: every truncation, +1..4 trailing bytes, every 4-byte length field set to each of {0,1,2,3,4,5,8,cur-1,cur+1,rem-1..rem+5,2^31-1,2^32-4..2^32-1}, every byte replaced by 00/01/ff; (c) every sequence of <= "+std::to_string(depth)+" tokens from {12 length fields, 00, 01, 'abcd', 4 eight-byte counts} loaded as 9 types. Each load is compared with a strict reference chunk reader. (d) user objects through session_interface::store_data/fetch_data (incl. every truncation of the stored value) and cache_interface::store_data/fetch_data. (e) every sequence of <= "+std::to_string(odepth)+" operations from {save int/string, load int/string/pair, operator&, mode(load), mode(save), reset(), str(image A/B/empty), copy, move, assign} on ONE archive object, compared step by step (load results, mode(), str(), eof(), next_chunk_size()) with a (bytes, cursor, mode) model. distinct = distinct (type, outcome class incl. loaded value); non-trivial = non-empty archive in which at least one chunk header was well-formed or the load succeeded";
+	vf::C().rule="(a) every value of a generated universe for 27 types (element counts 0,1,2,3; atoms incl. NUL strings, 300-byte string, NaN-free doubles, null/non-null pointers, user class, fixed arrays, json) saved and loaded; (b) for every such archive: every truncation, +1..4 trailing bytes, every 4-byte length field set to each of {0,1,2,3,4,5,8,cur-1,cur+1,rem-1..rem+5,2^31-1,2^32-4..2^32-1}, every byte replaced by 00/01/ff; (c) every sequence of <= "+std::to_string(depth)+" tokens from {12 length fields, 00, 01, 'abcd', 4 eight-byte counts} loaded as 9 types. Each load is compared with a strict reference chunk reader. (d) user objects through session_interface::store_data/fetch_data (incl. every truncation of the stored value; objects serialized to 2^21-2..2^21+1 bytes and keys of 1022..1025 bytes: refused, or loaded back by the next request) and cache_interface::store_data/fetch_data. (e) every sequence of <= "+std::to_string(odepth)+" operations from {save int/string, load int/string/pair, operator&, mode(load), mode(save), reset(), str(image A/B/empty), copy, move, assign} on ONE archive object, compared step by step (load results, mode(), str(), eof(), next_chunk_size()) with a (bytes, cursor, mode) model. distinct = distinct (type, outcome class incl. loaded value); non-trivial = non-empty archive in which at least one chunk header was well-formed or the load succeeded";
 	vf::assume("the strict chunk reader ([u32 little-endian length][bytes], length <= bytes remaining) is the format definition; json chunks are parsed with json::value::load");
 	vf::assume("throwing any std::exception on malformed input is admissible");
 	int np=16;
 	vf::parallel(np,np,[&](int sh){ all_types(sh,np); token_pass(depth,sh,np); object_pass(odepth,sh,np); if(sh==0) convenience_pass(); },vf::thorough()?1200:300);
 	vf::C().extra["token_depth"]=std::to_string(depth);
-	vf::require_guard("roundtrips"); vf::require_guard("session_store_data_roundtrips"); vf::require_guard("cache_store_data_roundtrips"); vf::require_guard("session_damaged_values"); vf::require_guard("lenfield_1to3_past_end"); vf::require_guard("truncation_refused"); vf::require_guard("token_archives_loaded"); vf::require_guard("object_sequences"); vf::require_guard("object_str_on_used_archive"); vf::require_guard("object_loads_ok"); vf::require_guard("object_loads_refused");
+	vf::require_guard("roundtrips"); vf::require_guard("session_store_data_roundtrips"); vf::require_guard("cache_store_data_roundtrips"); vf::require_guard("session_damaged_values"); vf::require_guard("session_size_edges_roundtrip"); vf::require_guard("session_size_edges_refused"); vf::require_guard("lenfield_1to3_past_end"); vf::require_guard("truncation_refused"); vf::require_guard("token_archives_loaded"); vf::require_guard("object_sequences"); vf::require_guard("object_str_on_used_archive"); vf::require_guard("object_loads_ok"); vf::require_guard("object_loads_refused");
 	return vf::finish();
 }
